@@ -544,6 +544,14 @@ func TestVerifC19(t *testing.T) {
 					switch variant {
 					case 0:
 						c.RowExpr = true
+						// also with a literal include entry for the same / another key next to the
+						// expression row: the row stays "built from an expression"
+						for _, ik := range []string{"k", "inc"} {
+							for _, iv := range Vs[:4] {
+								c2 := &c19Exclude{Row: row, RowExpr: true, IncKey: ik, IncVal: iv, ExcKey: ek, ExcVal: ev}
+								c19ExcludeCase(r, c2, lint)
+							}
+						}
 					case 1:
 						c.IncExpr = 1
 					case 2:
